@@ -27,6 +27,7 @@ type TreeOut struct {
 	V       []Violation
 	Firings []int // provider events per tx
 	Steps   int
+	Journal []journalObs
 }
 
 func (t *TreeOut) add(prop, rule, sig string, seq int, format string, a ...interface{}) {
@@ -196,6 +197,10 @@ func treeRun(sc *Scenario) *TreeOut {
 	var curTree *avm.CallTree
 	t.L.onEv = append(t.L.onEv, func(e *Ev) {
 		switch e.K {
+		case evStep:
+			if isJournalOp(e.Op) && e.Err == "" {
+				t.captureJournal(e)
+			}
 		case evTxBegin:
 			scopes = scopes[:0]
 			pendSnap = -1
@@ -308,11 +313,30 @@ func treeRun(sc *Scenario) *TreeOut {
 	t.checkGas()
 	t.checkAttempts()
 	t.checkBalances()
+	t.checkJournal()
 	return t
 }
 
 func swallowedSite(s string) string {
 	lines := strings.Split(s, "\n")
+	afterPanic := false
+	for _, l := range lines {
+		tl := strings.TrimSpace(l)
+		if strings.HasPrefix(tl, "panic(") {
+			afterPanic = true
+			continue
+		}
+		if !afterPanic || !strings.HasPrefix(tl, "/") || strings.Contains(tl, "/runtime/") {
+			continue
+		}
+		if strings.HasPrefix(tl, "/verif/") {
+			if strings.Contains(tl, "simdb.go") {
+				return "read-budget-inside-join-point" // the C20 watchdog fired inside a re-entrant call
+			}
+			panic(harnessErr("panic raised inside harness code (swallowed by aspect-core): " + tl + "\n" + s))
+		}
+		break
+	}
 	for i, l := range lines {
 		tl := strings.TrimSpace(l)
 		if strings.HasPrefix(tl, "/repo/") && i > 0 {
